@@ -306,6 +306,42 @@ def real_family(fam: int, flavour: int, i0: int, i1: int, e0: bool, e1: bool, nr
     return True
 
 
+def exact_false(fam: int, flavour: int, i0: int, i1: int, op: int) -> bool:
+    """an exact registration that says "unsupported" (handler False) beats a supporting ancestor; and a re-registration of
+    the same type that names another operation keeps covering subclasses for the operations it does not name"""
+    start()
+    types = FAMS[fam]
+    n = len(types)
+    i0, i1, op = concretize(i0, 0, 3), concretize(i1, 0, 3), concretize(op, 0, 1)
+    if i0 is OUT or i1 is OUT or op is OUT or not (i0 < n and i1 < n) or not issubclass(types[i1], types[i0]) or i0 == i1:
+        return True
+    _, register, do_glom = _mk_registry(flavour)
+    anc, sub = types[i0], types[i1]
+    if op == 0:
+        register(anc, get=(lambda o, k: 'anc-get'), iterate=(lambda o: iter(['anc-it'])))
+        register(sub, exact=True, iterate=False, get=(lambda o, k: 'sub-get'))
+        r_it = run(lambda: do_glom(sub(), [T], glom_debug=True))
+        r_get = run(lambda: do_glom(sub(), 'x', glom_debug=True))
+        reach('exact_false')
+        if not (r_it.kind == 'err' and isinstance(r_it.exc, UnregisteredTarget)):
+            return fail(why='exact registration with iterate=False must win over the ancestor', r_it=r_it)
+        return (r_get.kind == 'ok' and r_get.value == 'sub-get') or fail(why='exact get handler', r_get=r_get)
+    # op == 1: register X exact, then X again without exact naming only another op; a subclass instance uses X's handlers
+    class Sub(sub):
+        __slots__ = ()
+    register(anc, get=(lambda o, k: 'anc-get'), iterate=(lambda o: iter(['anc-it'])))
+    register(sub, exact=True, get=(lambda o, k: 'sub-get'))
+    register(sub, iterate=(lambda o: iter(['sub-it'])))
+    r_get = run(lambda: do_glom(Sub(), 'x', glom_debug=True))
+    r_it = run(lambda: do_glom(Sub(), [T], glom_debug=True))
+    reach('rereg_ops')
+    duck = flavour != 0 and hasattr(Sub(), '__dict__')
+    if duck and known_open('known_C13_duck_type_shadows_registration'):
+        return True
+    ok = r_get.kind == 'ok' and r_get.value == 'sub-get' and r_it.kind == 'ok' and r_it.value == ['sub-it']
+    return ok or fail(why='after re-registration without exact the type covers its subclasses for every operation', r_get=r_get, r_it=r_it)
+
+
 class Tgt:
     def __init__(self):
         self.x = 'attr'
@@ -405,6 +441,10 @@ def obligations(tier):
                 pre = '0 <= i0 <= 3 and 0 <= i1 <= 3 and 1 <= nreg <= 2'
                 obs.append(Ob(real_family, fixed={'fam': fam, 'flavour': flavour, 'op': op}, pre=pre,
                               name='real_family_%s_f%d_op%d' % (FAM_NAMES[fam], flavour, op), timeout=120))
+    for fam in (0, 1, 3, 4):
+        for flavour in (0, 1):
+            obs.append(Ob(exact_false, fixed={'fam': fam, 'flavour': flavour}, pre='0 <= i0 <= 3 and 0 <= i1 <= 3 and 0 <= op <= 1',
+                          name='exact_false_%s_f%d' % (FAM_NAMES[fam], flavour)))
     obs.append(Ob(isolation, pre='0 <= order <= 5 and 0 <= which <= 1', name='isolation'))
     obs.append(Ob(glommer_default, pre='0 <= shape <= 11', name='glommer_default'))
     obs.append(Ob(virt3, fixed={'nreg': 2, 'a': 0, 'b': 1, 'c': 2, 'ec': False, 'probe_between': True}, twin='ancestor', name='virt3_n2'))
